@@ -9,4 +9,9 @@ if ! "$VERIF_ROOT/scripts/build.sh" inst >"$VERIF_ROOT/.work/build-$id.log" 2>&1
   echo "BUILD-FAILED property=$id (harness could not be built from the working tree)" >&2
   exit 2
 fi
+case "$id" in
+  C10|C11)
+    # these checks also run the un-instrumented / race-enabled builds of the same harness
+    "$VERIF_ROOT/scripts/build.sh" plain >>"$VERIF_ROOT/.work/build-$id.log" 2>&1 || { cat "$VERIF_ROOT/.work/build-$id.log" >&2; echo "BUILD-FAILED property=$id" >&2; exit 2; } ;;
+esac
 exec "$VERIF_ROOT/bin/mc" check "$id" --tier "$tier" "$@"
